@@ -443,7 +443,7 @@ fn spec_eval(env: &[(&'static str, Tv)], e: &E) -> Option<Tv> {
             match spec_eval(env, b)? {
                 Tv::Array(xs) => cut(xs).map(Tv::Array),
                 Tv::Vec(dq, buf, orig) => match *buf { Tv::Array(xs) => cut(xs).map(|xs| Tv::Vec(dq, Box::new(Tv::Array(xs)), orig)), _ => None },
-                Tv::Ptr(true, run) | Tv::Rc(run, _) => { let r = (*r)? as usize; let lo = l.unwrap_or(0) as usize; if lo > r || r > run.len() { return Some(Tv::Other); } Some(Tv::Array(run[lo..r].to_vec())) }
+                Tv::Ptr(true, run) | Tv::Rc(run, _) => { let r = (*r)? as usize; let lo = l.unwrap_or(0) as usize; if lo > r { return None; } if r > run.len() { return Some(Tv::Other); } Some(Tv::Array(run[lo..r].to_vec())) }
                 _ => None,
             }
         }
@@ -632,6 +632,9 @@ const FIXED: &[&str] = &[
     "shape1.__0", "shape2.w", "shape3.__0", "opt.__0", "none.__0", "hs_i[-6]", "hs_i[8]", "bs_i[3]", "bs_s[\"yy\"]", "bs_s[\"y\"]", "tup.__2", "tup.0", "arr[-1]", "arr[5]", "arr[4]", "vec1[3]",
     "vec1[..2]", "vec1[2..]", "vec1[..]", "vec1[4..4]", "arr[1..4][1..2]", "arr[1..4][0]", "(~vec1).len", "(~deque).len", "(~bm_i).length", "~arr", "~~vec1", "&arr[2]", "*&arr[2]", "*&outer.inner",
     "&&arr", "*flag", "flag[0]", "flag.x", "unit[..]", "color.x", "color[Green]", "fl[0]", "ch.c", "st[0]", "s.vec", "bm_w[7]", "bm_u[3]", "bm_u[18446744073709551615]",
+    // ranges that do not fit and numbers out of range (C08's repaired defects): no result / a parse error, never a panic
+    "arr[3..1]", "arr[9..]", "arr[5..]", "arr[6..7]", "arr[1..9]", "vec1[5..]", "vec1[3..1]", "deque[9..]", "pint[2..1]", "arr[1..4][2..1]",
+    "arr[-9223372036854775808]", "arr[18446744073709551616]", "arr[1..99999999999999999999]", "arr[99999999999999999999..]",
 ];
 
 fn gen_eval(rng: &mut Rng, n: u64, first: bool, out: &mut Out, req: &mut Vec<String>) {
@@ -875,11 +878,9 @@ pub fn exec(req: &[String], out: &mut Out) {
                     let spec = spec_answer(&env, &e);
                     out.oracle_evals += 1;
                     let skip = spec.contains('X') && !spec.contains("val X?") && spec_eval(&env, &e).map(|v| format!("{v:?}").contains("Other")).unwrap_or(false);
-                    // panics of the slice arithmetic are C08's recorded findings (keys slice-left-greater-than-right-panics, slice-left-past-end-panics,
-                    // ptr-slice-zero-sized-element-panics): counted, not reported twice; any other panic is reported here
-                    let c08 = matches!(a.as_str(), "panic:sub" | "panic:drain-left" | "panic:chunk0");
-                    if c08 { out.count("eval.panic-recorded-under-C08", 1); }
-                    if a != spec && !skip && !c08 {
+                    // the panics of the slice arithmetic (C08's slice-left-greater-than-right-panics, slice-left-past-end-panics,
+                    // ptr-slice-zero-sized-element-panics) were repaired (known_findings.txt `fixed:`): any panic is reported here
+                    if a != spec && !skip {
                         out.oracle_fail(&classify(&env, &e, &a, &spec), &format!("{text:?}: the debugger answers {a}, the documented meaning over the program's values is {spec}"),
                             json!({"text": text, "impl": a, "spec": spec, "replay": l}));
                     }
